@@ -20,7 +20,7 @@ ASSUME = ['src/ftp/Parsing.cc and src/clients/FtpGateway.cc of the current tree 
           'FtpGateway.cc is #included into the harness to reach its static parser, no other member of it is called',
           'address literals outside strict inet_pton syntax that getaddrinfo(AI_NUMERICHOST) may accept ("1.2.3", v4-mapped) are not judged',
           'trailing bytes after the sixth PORT component are not judged (the PASV reply ends with ")")',
-          'the on-the-wire half (FTP server stub feeding listings through the gateway) is not part of this check']
+          'wire half: see checks/C40_ftp_e3.py and docs/checks/C40_ftp_e3.md']
 
 
 def _build(ctx):
@@ -38,7 +38,38 @@ def _timed_build(ctx):
     return exe
 
 
+def _wire_half():
+    """The on-the-wire half (real squid + driver-played FTP server) lives in checks/C40_ftp_e3.py."""
+    import importlib.util, os
+    path = os.path.join(os.path.dirname(os.path.abspath(__file__)), 'C40_ftp_e3.py')
+    spec = importlib.util.spec_from_file_location('check_C40_ftp_e3', path)
+    mod = importlib.util.module_from_spec(spec)
+    spec.loader.exec_module(mod)
+    return mod
+
+
 def run(ctx):
+    """Both halves of C40: (1) the in-process grids (E1), (2) the wire half (E3).  One evidence file, one
+    list of violations; wire-half keys carry the prefix 'ftp-e3:'."""
+    r1 = _run_inprocess(ctx)
+    e3 = _wire_half()
+    # the wire half needs about 60-90 s of its own: give it at least 2 minutes whatever the first half used
+    need = 120 if ctx.quick else 420
+    if ctx.remaining() < need:
+        ctx.deadline_s += need - ctx.remaining()
+    r2 = e3.run(ctx)
+    c1, c2 = r1.coverage, r2.coverage
+    cov = {'evaluations': c1['evaluations'] + c2['evaluations'],
+           'distinct_nontrivial': c1['distinct_nontrivial'] + c2['distinct_nontrivial'],
+           'rule': 'IN-PROCESS HALF: ' + c1['rule'] + ' || WIRE HALF: ' + c2['rule'],
+           'samples': list(c1['samples'])[:4] + list(c2['samples'])[:4],
+           'exhaustive': bool(c1.get('exhaustive')) and bool(c2.get('exhaustive')),
+           'in_process_half': {k: c1[k] for k in c1 if k not in ('rule', 'samples')},
+           'wire_half': {k: c2[k] for k in c2 if k not in ('rule', 'samples')}}
+    return Result(LEVEL, cov, list(r1.violations) + list(r2.violations), ASSUME + list(r2.assumptions))
+
+
+def _run_inprocess(ctx):
     exe = _timed_build(ctx)
     m = seq.run(ctx, exe)
     oc = m['outcomes']
@@ -54,6 +85,8 @@ def run(ctx):
 
 
 def replay(ctx, data):
+    if isinstance(data.get('case'), dict):      # a wire-half case
+        return _wire_half().replay(ctx, data)
     exe = _build(ctx)
     tiers = [ctx.tier] + [t for t in ('quick', 'thorough') if t != ctx.tier]
     for t in tiers:
